@@ -10,9 +10,9 @@ import (
 
 	"github.com/256dpi/gomqtt/topic"
 
-	"verifharness/internal/gen"
-	"verifharness/internal/out"
-	"verifharness/internal/wire"
+	"verifharness/lib/gen"
+	"verifharness/lib/out"
+	"verifharness/lib/wire"
 )
 
 var w *out.W
